@@ -2,6 +2,6 @@
 (* Export of the C11 contexts: one state, dumped and handed to the Go harness. *)
 EXTENDS C11_defs
 VARIABLE out
-CtxInit == out = [cases |-> CaseCtx, pool |-> PoolCtx, graph |-> GraphCtx, quick |-> QuickCtx]
+CtxInit == out = [cases |-> CaseCtx, pool |-> PoolCtx, graph |-> GraphCtx, quick |-> QuickCtx, weak |-> WeakCtx, mid |-> MidCtx]
 CtxNext == UNCHANGED out
 =============================================================================
